@@ -42,7 +42,8 @@ def build_native(spec, suite_dir, scratch, log, extra_defs=()):
         if rc != 0:
             raise C.ToolError("native compile of %s failed: %s" % (s, (se or so)[-1500:]))
         objs.append(o)
-    prog = os.path.join(suite_dir, spec["prog"])
+    prog = spec["prog"]
+    prog = os.path.join(VERIF, "suites", prog[8:]) if prog.startswith("@suites/") else os.path.join(suite_dir, prog)
     cc = "gcc" if prog.endswith(".c") else "g++"
     cmd = [cc] + (["-std=c++11"] if cc == "g++" else []) + flags + inc + ["-D" + d for d in extra_defs] + \
           ["-D" + d for d in spec.get("defines", [])] + [prog] + objs + lib + ["-lpthread", "-lm", "-o", exe]
@@ -79,10 +80,15 @@ def run_native(ob, pid, suite_dir, scratch, log):
 def _args_from_cex(spec, cex):
     args = []
     roots = spec.get("vars")
+    skip = spec.get("skip")
     for k, v in (cex or {}).items():
         root = re.split(r"[.\[]", k)[0]
+        if skip and re.search(skip, k):
+            continue
+        if k.startswith("return_value_"):
+            continue
         if roots is None or root in roots:
-            args.append("%s=%d" % (k, v))
+            args.append("%s=%d" % (re.sub(r"\.\$anon\d+", "", k), v))
     return args
 
 
